@@ -11,7 +11,8 @@ package main
 //             trees share blobs), each at most once
 //   FT        forge snapshot t4 with pack size 1: every blob in a pack of its own
 //             (14 tiny fully used packs: the "many small packs" rule)
-//   FC        forge snapshot t5 with compression off (uncompressed data packs)
+//   FC        forge snapshot t5 with compression off (uncompressed data packs;
+//             thorough tier only)
 //   FM        a hand-written mixed pack (one tree blob + one data blob, stored
 //             uncompressed) with a hand-written index file, and a snapshot of it
 //   G0 G1     forget the oldest / the newest snapshot (its file is deleted)
@@ -143,6 +144,9 @@ func (h *verifC10Hist) has(op string) bool {
 	}
 	return false
 }
+
+// verifC10WithFC: the compression-off forge is part of the thorough alphabet only.
+var verifC10WithFC = false
 
 var verifC10Alphabet = []string{"F1", "F2", "F3", "FT", "FC", "FM", "G0", "G1", "D", "U", "X"}
 
@@ -359,7 +363,7 @@ func verifC10Apply(t *testing.T, ctx context.Context, h *verifC10Hist, op string
 			return nil
 		}
 	}
-	if h.version < 2 && op == "FC" {
+	if op == "FC" && (h.version < 2 || !verifC10WithFC) {
 		return nil
 	}
 	child := &verifC10Hist{version: h.version, ops: append(append([]string{}, h.ops...), op), snaps: append([]verifC10Snap{}, h.snaps...)}
@@ -926,7 +930,8 @@ func TestVerif_C10(t *testing.T) {
 	r := vh.Start(t, "C10")
 	defer r.Finish()
 	maxOps := vh.Pick(r, 3, 4)
-	r.Rule(fmt.Sprintf("every history of at most %d operations (repository format v1: thorough only, at most 3) over {forge t1,t2,t3, forge with one pack per blob, forge uncompressed, hand-written mixed pack, forget oldest, forget newest, duplicate blobs, unindexed pack, delete an unneeded pack}, each followed by the real runPrune --max-unused 0 --json on a private copy; states = distinct repository states before prune (packs named by content); non-trivial = the state holds waste (unused or duplicate index entries, unindexed or missing packs) or packs are repacked", maxOps))
+	verifC10WithFC = r.Thorough()
+	r.Rule(fmt.Sprintf("every history of at most %d operations (repository format v1: thorough only, at most 3) over {forge t1,t2,t3, forge with one pack per blob, forge uncompressed (thorough), hand-written mixed pack, forget oldest, forget newest, duplicate blobs, unindexed pack, delete an unneeded pack}, each followed by the real runPrune --max-unused 0 --json on a private copy; states = distinct repository states before prune (packs named by content); non-trivial = the state holds waste (unused or duplicate index entries, unindexed or missing packs) or packs are repacked", maxOps))
 	r.Assume("fault-free in-memory backend; a single process", "the split of duplicate copies between 'used' and 'duplicate/unused' is restic's heuristic: with duplicates only the documented sums and the before/after differences are checked",
 		"histories in which a needed blob is listed in a manually deleted pack are outside the property (no-panic only)")
 	ctx := context.Background()
